@@ -10,6 +10,7 @@ def sh(cmd, cwd=None, env=None, timeout=3600):
 def main():
     prop, src = sys.argv[1], sys.argv[2].rstrip("/")
     tier = sys.argv[4] if len(sys.argv) > 4 and sys.argv[3] == "--tier" else "quick"
+    recheck = "--recheck" in sys.argv  # keep the recorded confirmation (tests, demo) of an already stored change, only re-run the check
     variant = os.path.basename(src)
     sid = "%s-%s" % (prop, variant) if not variant.startswith(prop) else variant
     wt = "/tmp/seedwt-%s" % sid
@@ -19,6 +20,15 @@ def main():
         meta = {"summary": meta.get("summary"), "needs_to_manifest": meta.get("needs_to_manifest"), "files_changed": meta.get("files_changed")}
     ran = {}
     assert sh("git -C /repo diff --quiet")[0] == 0, "/repo dirty"
+    old = meta.get("what_i_ran") or {}
+    if recheck and os.path.exists(os.path.join(src, "meta.json")):
+        full = json.load(open(os.path.join(src, "meta.json")))
+        old = full.get("what_i_ran") or {}
+        meta = {"summary": full.get("summary"), "needs_to_manifest": full.get("needs_to_manifest"), "files_changed": full.get("files_changed")}
+    if recheck and old.get("confirmed"):
+        ran = {k: old[k] for k in ("demo_unpatched_exit", "tests_tail", "tests_pass", "demo_patched_exit", "demo_patched_tail", "confirmed") if k in old}
+        ran["confirmed_at"] = old.get("confirmed_at") or old.get("repo_commit")
+        return finish(prop, src, sid, patch, meta, ran, tier)
     sh("git -C /repo worktree remove --force %s" % wt)
     rc, out = sh("git -C /repo worktree add -q --detach %s HEAD" % wt); assert rc == 0, out
     try:
@@ -41,6 +51,11 @@ def main():
         shutil.rmtree(wt, ignore_errors=True)
     confirmed = ran.get("tests_pass") and ran.get("demo_patched_exit") == 1 and ran.get("demo_unpatched_exit") == 0
     ran["confirmed"] = bool(confirmed)
+    return finish(prop, src, sid, patch, meta, ran, tier)
+
+
+def finish(prop, src, sid, patch, meta, ran, tier):
+    confirmed = ran.get("confirmed")
     # run the check against /repo with the patch applied
     rc, out = sh("git -C /repo apply %s" % patch)
     if rc != 0:
